@@ -7,8 +7,9 @@ import (
 	"fmt"
 	"io"
 	"runtime"
+	"sort"
 	"sync"
-	"sync/atomic"
+	"time"
 
 	"fgverif/gen"
 	"fgverif/impl"
@@ -24,7 +25,7 @@ func init() { register(c17{}) }
 func (c17) ID() string            { return "C17" }
 func (c17) EvidenceLevel() string { return "exploration" }
 func (c17) Rule() string {
-	return "case = (G in {2,8,32,128} goroutines, GOMAXPROCS in {1,2,4,16}, a seeded set of workloads, each owning its instances: compress at every level/window/wrapper with Flush and Reset-reuse; decompress valid streams (fixed blocks, which all read the shared static tables; dynamic blocks, which build tables); decompress malformed streams (error paths); gzip/zlib round trips). Each workload's digest (sha256 over every emission, decoded output and error kind, in order) is first computed on one goroutine, then all workloads run concurrently with runtime.Gosched()/spin injected in the harness's reader/writer callbacks; every concurrent digest must equal the sequential one. The race-detector build runs the same cases at level 0 (all Go code instrumented) and at the highest level; any report block is a violation. Overlap is measured, not assumed: workloads whose [start,end] event intervals intersect are counted, and the order of the first 64 callback events is the interleaving signature. Non-trivial: a case in which at least two workloads overlapped; distinct by interleaving signature."
+	return "case = (G in {2,8,32,128} goroutines, GOMAXPROCS in {1,2,4,16}, a seeded set of workloads, each owning its instances: compress at every level/window/wrapper with Flush and Reset-reuse; decompress valid streams (fixed blocks, which all read the shared static tables; dynamic blocks, which build tables); decompress malformed streams (error paths); gzip/zlib round trips). All workloads run concurrently first (released together by a gate, runtime.Gosched()/spin injected in the harness's reader/writer callbacks), so that the first case of every child process starts cold (that case is widened to every workload kind twice, side by side, and a separate pass of the race build runs one case per process to multiply the cold starts); then each workload's digest (sha256 over every emission, decoded output and error kind, in order) is computed again on one goroutine; every concurrent digest must equal the sequential one. Every third case is homogeneous: all workloads are of one kind with coinciding size parameters (e.g. zlib preset dictionaries of one length and different contents), so that all goroutines contend on the same paths. The race-detector build runs the same cases at level 0 (all Go code instrumented) and at the highest level; any report block is a violation. Overlap is measured, not assumed: workloads whose [start,end] intervals (monotonic time stamps kept per workload, with no synchronisation between workloads that the race detector could take for ordering) intersect are counted, and the order of the first 64 callback events is the interleaving signature; time stamps serve the evidence only, never the verdict. Non-trivial: a case in which at least two workloads overlapped; distinct by interleaving signature."
 }
 func (c17) NumCases(tier string) int {
 	if tier == "thorough" {
@@ -40,29 +41,62 @@ func (c17) Plan(tier string) []mon.RunSpec {
 		raceLv = append(raceLv, top)
 	}
 	if tier == "thorough" {
-		return []mon.RunSpec{{Flavour: "plain"}, {Flavour: "race", Levels: raceLv, Shards: 4}}
+		return []mon.RunSpec{{Flavour: "plain"}, {Flavour: "race", Levels: raceLv, Shards: 4},
+			// cold starts: 64 processes per level that run one case each
+			{Flavour: "race", Levels: raceLv, Every: 25, Shards: 64}}
 	}
-	return []mon.RunSpec{{Flavour: "plain", Shards: 2}, {Flavour: "race", Levels: raceLv, Every: 3, Shards: 4}}
+	return []mon.RunSpec{{Flavour: "plain", Shards: 2}, {Flavour: "race", Levels: raceLv, Every: 3, Shards: 4},
+		// cold starts: 20 processes per level that run one case each
+		{Flavour: "race", Levels: raceLv, Every: 5, Shards: 20}}
 }
 func (c17) CaseCPUBudget(string) float64 { return 1800 }
 func (c17) Assumptions() []string {
 	return []string{"memory accesses made by assembly are not instrumented by the race detector; a race confined to assembly is visible only through the digest comparison"}
 }
 
+// c17Clock stamps callback events. It must not synchronise the workloads with
+// one another: a mutex or an atomic counter shared by all hooks would give the
+// race detector a happens-before edge between any two workloads at every
+// callback and hide races between them (it did, in an earlier version of this
+// monitor). Each workload therefore appends monotonic time stamps to a slice of
+// its own, and the slices are merged after all goroutines have been joined.
 type c17Clock struct {
-	seq    int64
-	events []int32 // workload ids of the first callback events, in global order
-	mu     sync.Mutex
+	t0     time.Time
+	stamps [][]int64 // per workload: nanoseconds since t0 of its first callback events
+	events []int32   // filled by merge: workload ids of the first events in time order
+}
+
+func newC17Clock(nw int) *c17Clock {
+	return &c17Clock{t0: time.Now(), stamps: make([][]int64, nw)}
 }
 
 func (k *c17Clock) tick(id int) int64 {
-	s := atomic.AddInt64(&k.seq, 1)
-	if s <= 64 {
-		k.mu.Lock()
-		k.events = append(k.events, int32(id))
-		k.mu.Unlock()
+	t := int64(time.Since(k.t0))
+	if len(k.stamps[id]) < 64 {
+		k.stamps[id] = append(k.stamps[id], t)
 	}
-	return s
+	return t
+}
+
+// merge orders the recorded events of all workloads by time stamp.
+func (k *c17Clock) merge() {
+	type ev struct {
+		t  int64
+		id int32
+	}
+	var all []ev
+	for id, st := range k.stamps {
+		for _, t := range st {
+			all = append(all, ev{t, int32(id)})
+		}
+	}
+	sort.Slice(all, func(a, b int) bool { return all[a].t < all[b].t || (all[a].t == all[b].t && all[a].id < all[b].id) })
+	if len(all) > 64 {
+		all = all[:64]
+	}
+	for _, e := range all {
+		k.events = append(k.events, e.id)
+	}
 }
 
 // yield moves the preemption point: Gosched or a short spin, decided by the
@@ -82,9 +116,10 @@ func c17Yield(r *gen.Rand) {
 }
 
 type c17Work struct {
-	id   int
-	kind string
-	seed uint64
+	id    int
+	kind  string
+	seed  uint64
+	param int // kind-specific size parameter shared by the workloads of a homogeneous case
 }
 
 // run executes the workload and returns its digest.
@@ -258,6 +293,46 @@ func (w c17Work) run(api *impl.API, clk *c17Clock) (digest string, start, end in
 				out, err, _ := readAllSizes(rd, gen.ReadSizes(gen.New(w.seed+uint64(k)), "random"), 8<<20)
 				note("bad", out, err)
 			}
+		case "zlib-dict":
+			// many short streams against one preset dictionary per workload; the
+			// dictionaries of different workloads have the same length (param) and
+			// different contents
+			n := w.param
+			if n == 0 {
+				n = r.Pick(4096, 8192, 32768)
+			}
+			dict := gen.Make(r, "text", n).B
+			if len(dict) > n {
+				dict = dict[:n]
+			}
+			for k := 0; k < 40; k++ {
+				msg := gen.Make(r, "text", r.Range(1, 300)).B
+				var b bytes.Buffer
+				z, err := api.NewZlibWriterLevelDict(&hookWriter{w: &b, hook: hook}, accelLevels[r.Intn(4)], dict)
+				if err != nil {
+					note("ctor", nil, err)
+					return
+				}
+				z.Write(msg)
+				note("zd", b.Bytes(), z.Close())
+				rd, err := api.NewZlibReaderDict(&hookReader{r: bytes.NewReader(b.Bytes()), hook: hook}, dict)
+				if err != nil {
+					note("rdctor", nil, err)
+					continue
+				}
+				out, e := io.ReadAll(rd)
+				note("zr", out, e)
+				// the same Reader and Writer again, through Reset
+				b2 := &bytes.Buffer{}
+				z.Reset(b2)
+				z.Write(msg)
+				note("zd2", b2.Bytes(), z.Close())
+				e = rd.Reset(bytes.NewReader(b2.Bytes()), dict)
+				if e == nil {
+					out, e = io.ReadAll(rd)
+				}
+				note("zr2", out, e)
+			}
 		case "gzip-roundtrip", "zlib-roundtrip":
 			d := gen.RandomData(r, 100000)
 			var b bytes.Buffer
@@ -314,8 +389,27 @@ type hookWriter struct {
 
 func (h *hookWriter) Write(p []byte) (int, error) { h.hook(); return h.w.Write(p) }
 
+// c17First is true until the process has run its first case.
+var c17First = true
+
 var c17Kinds = []string{"compress", "compress-reset", "decode-fixed", "decode-dynamic", "decode-any", "decode-malformed", "gzip-roundtrip", "zlib-roundtrip",
-	"compress-deep-tree", "compress-deep-tree", "decode-close-reuse", "decode-close-reuse", "gzip-close-reuse", "gzip-headers", "gzip-headers"}
+	"compress-deep-tree", "compress-deep-tree", "decode-close-reuse", "decode-close-reuse", "gzip-close-reuse", "gzip-headers", "gzip-headers", "zlib-dict"}
+
+// c17Distinct is c17Kinds without repetitions.
+var c17Distinct = func() (d []string) {
+	seen := map[string]bool{}
+	for _, k := range c17Kinds {
+		if !seen[k] {
+			seen[k] = true
+			d = append(d, k)
+		}
+	}
+	return
+}()
+
+// kinds used for homogeneous cases (every workload of the case is of one kind,
+// so that all goroutines contend on the same code paths and shared state)
+var c17Homog = []string{"zlib-dict", "decode-dynamic", "compress", "gzip-roundtrip", "zlib-dict", "decode-fixed", "compress-deep-tree", "decode-malformed"}
 
 func (c17) Run(c *mon.Ctx, i int) {
 	r := c.R
@@ -331,33 +425,66 @@ func (c17) Run(c *mon.Ctx, i int) {
 	if c.Flavour == "race" && nw > 24 {
 		nw = 24
 	}
+	// the first case a process runs is its cold start: make it wide (every kind
+	// of workload at least twice, side by side) unless it is a homogeneous case
+	cold := c17First && i%3 != 2
+	if cold {
+		nw = 2 * len(c17Distinct)
+		if G < 8 {
+			G = 8
+		}
+		if procs < 2 {
+			procs = 2
+		}
+	}
 	works := make([]c17Work, nw)
+	homog := ""
+	if i%3 == 2 {
+		// (i/3)%8 walks the kinds; i%4 and (i/4)%4 still walk G and GOMAXPROCS
+		homog = c17Homog[(i/3)%len(c17Homog)]
+	}
+	hparam := []int{4096, 32768, 8192}[(i/24)%3]
 	for k := range works {
 		works[k] = c17Work{id: k, kind: c17Kinds[r.Intn(len(c17Kinds))], seed: r.U64()}
+		if homog != "" {
+			works[k].kind = homog
+			works[k].param = hparam
+		}
+		if cold {
+			works[k].kind = c17Distinct[(k/2)%len(c17Distinct)]
+		}
 	}
-	// sequential reference digests, one goroutine
-	seq := make([]string, nw)
-	for k, w := range works {
-		seq[k], _, _ = w.run(c.API, nil)
-	}
+	// The concurrent run comes first and the one-goroutine reference run second:
+	// the first case a process executes then starts its goroutines cold, with
+	// nothing in the package initialised lazily by an earlier sequential pass,
+	// which is how a server's first parallel requests meet the package.
 	old := runtime.GOMAXPROCS(procs)
-	defer runtime.GOMAXPROCS(old)
-	clk := &c17Clock{}
+	clk := newC17Clock(nw)
 	conc := make([]string, nw)
 	starts := make([]int64, nw)
 	ends := make([]int64, nw)
 	var wg sync.WaitGroup
 	sem := make(chan struct{}, G)
+	gate := make(chan struct{})
 	for k := range works {
 		wg.Add(1)
 		go func(k int) {
 			defer wg.Done()
+			<-gate
 			sem <- struct{}{}
 			conc[k], starts[k], ends[k] = works[k].run(c.API, clk)
 			<-sem
 		}(k)
 	}
+	close(gate)
 	wg.Wait()
+	clk.merge()
+	runtime.GOMAXPROCS(old)
+	// sequential reference digests, one goroutine
+	seq := make([]string, nw)
+	for k, w := range works {
+		seq[k], _, _ = w.run(c.API, nil)
+	}
 	c.Eval(2 * nw)
 	desc := map[string]interface{}{"goroutines": G, "GOMAXPROCS": procs, "workloads": nw}
 	for k := range works {
@@ -384,6 +511,13 @@ func (c17) Run(c *mon.Ctx, i int) {
 	c.Count(fmt.Sprintf("cases G=%d procs=%d", G, procs), 1)
 	for _, w := range works {
 		c.Count("kind:"+w.kind, 1)
+	}
+	if homog != "" {
+		c.Count("homogeneous-cases:"+homog, 1)
+	}
+	if c17First {
+		c17First = false
+		c.Count("cold-start-cases (first case of a process, concurrent before any sequential pass)", 1)
 	}
 	if pairs > 0 {
 		c.Count("cases-with-overlap", 1)
